@@ -124,6 +124,14 @@ func applyJSON(doc document.Document, entry interface{}) (result document.Docume
 			return nil, err
 		}
 
+		if kind == "move" {
+			// the library removes 'from' before it follows 'path': when both lie in the same array the positions
+			// shift, so 'path' has to be checked against the document without 'from' as well
+			if err := checkMoveTarget(docBytes, from, path); err != nil {
+				return nil, err
+			}
+		}
+
 		if kind == "copy" {
 			docBytes, err = applyCopy(docBytes, from, path)
 		} else {
@@ -177,6 +185,28 @@ func applyCopy(docBytes []byte, from, path string) ([]byte, error) {
 	}
 
 	return docBytes, nil
+}
+
+// checkMoveTarget checks the array indexes of the target of a 'move' against the document as it is once the
+// source has been taken out.
+func checkMoveTarget(docBytes []byte, from, path string) error {
+	removeBytes, err := json.Marshal([]map[string]string{{"op": "remove", "path": from}})
+	if err != nil {
+		return err
+	}
+
+	remove, err := jsonpatch.DecodePatch(removeBytes)
+	if err != nil {
+		return err
+	}
+
+	without, err := remove.Apply(docBytes)
+	if err != nil {
+		// there is nothing to move: the operation itself will fail
+		return nil //nolint:nilerr
+	}
+
+	return checkArrayIndexes(without, path)
 }
 
 // checkArrayIndexes follows the pointers through the document and refuses an array index beyond the end of the
